@@ -2,6 +2,7 @@
 import re
 
 import interp
+import spec_ecalls
 from common import unhx
 from pipeline import field
 
@@ -292,9 +293,15 @@ def check_live_dynamic(prog, facts, m):
     tr = m.trace
     last_write = {}       # (frame, reg) -> step
     barrier = {}          # frame -> step of last call/ecall
-    for t, (a, _, fr) in enumerate(tr):
+    for t, (a, regs, fr) in enumerate(tr):
         n = prog.nodes[a]
-        for r in reads_of(n):
+        rd = reads_of(n)
+        if n["kind"] == "Basic" and n["inst"] == "Ecall":
+            # the environment reads the call number and the arguments RARS documents for it
+            # (independent table, tools/spec_ecalls.py)
+            sig = spec_ecalls.RARS.get(interp.s32(regs[17]))
+            rd = {17} | (set(sig[0]) if sig else set())
+        for r in rd:
             s = last_write.get((fr, r))
             if s is not None and s > barrier.get(fr, -1):
                 for u in range(s + 1, t + 1):
